@@ -17,6 +17,10 @@ the psi values before following and the lines after following under the same (ge
 flow from skeleton point j at psi_vals[i] (§4); with the integrator's contract ψ(flow ψ') = ψ' every contour is a flux surface (§5).
 -/
 import HypnoModel.Gen.Pipeline
+import HypnoModel.Gen.Follow
+import HypnoModel.Gen.Fields
+import Mathlib.Tactic.FieldSimp
+import Mathlib.Tactic.Ring
 import HypnoModel.Model.Perp
 import HypnoModel.Lemmas.Perp
 import Mathlib.Algebra.Order.Group.Int
@@ -175,5 +179,52 @@ example : assembleWith true false (fun j (x : Int) => (j, x)) (fun _ => 3) 2 [1,
 
 /-- a flow satisfying the integrator's contract for ψ = second coordinate -/
 example : ∀ (j : Nat) (x : Int), Prod.snd ((fun j (x : Int) => (j, x)) j x) = x := fun _ _ => rfl
+
+/-! ## The integration itself (`followPerpendicular`, GENERATED `Gen.Follow`)
+
+`Gen.Follow.rhs` is the pair the inner function `f` returns to solve_ivp, `selfCalls` the keyword arguments of every recursive call,
+`solveKeywords` those of the solve_ivp call.  With the generated `f_R`, `f_Z` of the equilibrium (`Gen.R.Fields`) the right-hand side
+advances psi at unit rate and is parallel to grad(psi): the independent variable of the integration *is* psi and the curve is the
+integral curve of grad(psi) — for every flux function, whatever its units (a clipped or rescaled component breaks both). -/
+section Follow
+open Gen.Follow
+
+theorem rhs_unit_rate_dct (D01 D10 : ℝ → ℝ → ℝ) (R Z : ℝ) (h : (D10 R Z) ^ 2 + (D01 R Z) ^ 2 ≠ 0) :
+    D10 R Z * (rhs (Gen.R.Fields.dct.f_R D01 D10) (Gen.R.Fields.dct.f_Z D01 D10) R Z).1
+      + D01 R Z * (rhs (Gen.R.Fields.dct.f_R D01 D10) (Gen.R.Fields.dct.f_Z D01 D10) R Z).2 = 1 ∧
+    D10 R Z * (rhs (Gen.R.Fields.dct.f_R D01 D10) (Gen.R.Fields.dct.f_Z D01 D10) R Z).2
+      - D01 R Z * (rhs (Gen.R.Fields.dct.f_R D01 D10) (Gen.R.Fields.dct.f_Z D01 D10) R Z).1 = 0 := by
+  simp only [rhs, Gen.R.Fields.dct.f_R, Gen.R.Fields.dct.f_Z]
+  constructor
+  · field_simp
+  · field_simp; ring
+
+theorem rhs_unit_rate_spline (D01 D10 : ℝ → ℝ → ℝ) (R Z loR hiR loZ hiZ : ℝ)
+    (hR : loR ≤ R ∧ R ≤ hiR) (hZ : loZ ≤ Z ∧ Z ≤ hiZ) (h : (D10 R Z) ^ 2 + (D01 R Z) ^ 2 ≠ 0) :
+    D10 R Z * (rhs (fun r z => Gen.R.Fields.spline.f_R D01 D10 r z loR hiR loZ hiZ) (fun r z => Gen.R.Fields.spline.f_Z D01 D10 r z loR hiR loZ hiZ) R Z).1
+      + D01 R Z * (rhs (fun r z => Gen.R.Fields.spline.f_R D01 D10 r z loR hiR loZ hiZ) (fun r z => Gen.R.Fields.spline.f_Z D01 D10 r z loR hiR loZ hiZ) R Z).2 = 1 ∧
+    D10 R Z * (rhs (fun r z => Gen.R.Fields.spline.f_R D01 D10 r z loR hiR loZ hiZ) (fun r z => Gen.R.Fields.spline.f_Z D01 D10 r z loR hiR loZ hiZ) R Z).2
+      - D01 R Z * (rhs (fun r z => Gen.R.Fields.spline.f_R D01 D10 r z loR hiR loZ hiZ) (fun r z => Gen.R.Fields.spline.f_Z D01 D10 r z loR hiR loZ hiZ) R Z).1 = 0 := by
+  have e1 : min hiR (max loR R) = R := by rw [max_eq_right hR.1, min_eq_right hR.2]
+  have e2 : min hiZ (max loZ Z) = Z := by rw [max_eq_right hZ.1, min_eq_right hZ.2]
+  simp only [rhs, Gen.R.Fields.spline.f_R, Gen.R.Fields.spline.f_Z, e1, e2]
+  constructor
+  · field_simp
+  · field_simp; ring
+
+theorem follow_everything_forwarded :
+    ∀ c ∈ selfCalls, c.lookup "rtol" = some "rtol" ∧ c.lookup "atol" = some "atol" ∧ c.lookup "maxits" = some "maxits" ∧
+      c.lookup "recover" = some "recover" ∧ c.lookup "f_R" = some "f_R" ∧ c.lookup "f_Z" = some "f_Z" := by decide
+
+theorem follow_solver_arguments :
+    solvePositional = ["f", "psirange", "tuple(p0)"] ∧ solveKeywords.lookup "rtol" = some "rtol" ∧
+      solveKeywords.lookup "atol" = some "atol" ∧ solveKeywords.lookup "t_eval" = some "psivals" := by decide
+
+theorem follow_selfcalls_same_start : ∀ p ∈ selfCallsPositional, p = ["None", "p0", "psi0"] := by decide
+
+example : (3 : ℝ) * (rhs (fun _ _ => (3 : ℝ) / 25) (fun _ _ => (4 : ℝ) / 25) 0 0).1 + 4 * (rhs (fun _ _ => (3 : ℝ) / 25) (fun _ _ => (4 : ℝ) / 25) 0 0).2 = 1 := by
+  simp only [rhs]; norm_num
+
+end Follow
 
 end HypnoModel.Props.C04
